@@ -30,7 +30,8 @@ ASSUMPTIONS = [
 
 @st.composite
 def case(draw):
-    spec = draw(econ.economy(zones=(1, 3), horizon=(2, 3)))
+    from harness import gen
+    spec = draw(econ.economy(zones=(1, 3), horizon=gen.size((2, 3), (2, 6))))
     # bias: add an import link when there is none and at least two producing countries exist
     all_c = [(zi, ci) for zi, z in enumerate(spec['zones']) for ci, c in enumerate(z['countries']) if c['hh']]
     if len(all_c) >= 2 and not any(l['kind'] == 'import' for l in spec['links']) and draw(st.booleans()):
